@@ -2,6 +2,7 @@ package props
 
 import (
 	"encoding/json"
+	"fmt"
 	"testing"
 
 	"pgregory.net/rapid"
@@ -157,6 +158,22 @@ func TestC18(t *testing.T) {
 	cfg.ContractPct = 85
 	cfg.Keys = []string{"a", "b", "c"}
 	reads := 0
+	// pending transactions that a losing (never played) side block also carries must stay invisible
+	cfg.Mix = func(rt *rapid.T, nm *hx.NodeMachine) hx.NOp {
+		m := nm.LM.M
+		if len(nm.Pool) > 0 && m.Blocks[nm.Ptr].Parent >= 0 && rapid.IntRange(0, 9).Draw(rt, "sidecarrier") == 0 {
+			parent := m.Blocks[nm.Ptr].Parent
+			if rapid.Bool().Draw(rt, "deeper") && m.Blocks[parent].Parent >= 0 {
+				parent = m.Blocks[parent].Parent
+			}
+			op := hx.NOp{Op: "peer", Label: fmt.Sprintf("b%d", len(m.Blocks)), Parent: parent, Proposer: 1, Expect: "side-block-carrying-pending"}
+			for _, ptx := range nm.Pool {
+				op.Pool = append(op.Pool, fmt.Sprintf("%x", ptx.Txid))
+			}
+			return op
+		}
+		return genNodeOp(rt, nm, cfg)
+	}
 	c.Check(t, "node-machine-snapshots", hx.N(400, 2500), func(cs *hx.Case) {
 		runNodeCase(cs, fs, cfg, func(nm *hx.NodeMachine, op hx.NOp, i int) error {
 			n, err := nm.CheckSnapshots()
